@@ -760,6 +760,9 @@ pub fn c16_single(a: &Analysis) -> Vec<Violation> {
 #[derive(Clone, Debug, PartialEq, Eq)]
 pub struct Observable {
     pub requests: Vec<Vec<Packet>>,
+    /// PUBREL packets, sorted: their position among the requests depends on when the PUBREC
+    /// arrived and when the publish future was polled, which is timing, not framing.
+    pub pubrels: Vec<Vec<u16>>,
     pub acks: Vec<Vec<Packet>>,
     pub ops: Vec<(usize, Option<OpOutcome>)>,
     pub streams: BTreeMap<usize, (Vec<MessageDigest>, bool)>,
@@ -770,7 +773,16 @@ pub struct Observable {
 
 pub fn observable(a: &Analysis) -> Observable {
     Observable {
-        requests: (0..a.conns.len()).map(|c| a.requests(c).into_iter().map(|p| p.pkt.clone()).collect()).collect(),
+        requests: (0..a.conns.len())
+            .map(|c| a.requests(c).into_iter().filter(|p| !matches!(p.pkt, Packet::Pubrel(_))).map(|p| p.pkt.clone()).collect())
+            .collect(),
+        pubrels: (0..a.conns.len())
+            .map(|c| {
+                let mut v: Vec<u16> = a.requests(c).into_iter().filter_map(|p| if let Packet::Pubrel(x) = &p.pkt { Some(x.pid) } else { None }).collect();
+                v.sort();
+                v
+            })
+            .collect(),
         acks: (0..a.conns.len()).map(|c| a.acks(c).into_iter().map(|p| p.pkt.clone()).collect()).collect(),
         ops: a.ops.values().map(|o| (o.idx, o.outcome().cloned())).collect(),
         streams: a.streams.iter().map(|(k, s)| (*k, (s.items.iter().map(|i| i.1.clone()).collect(), s.ended.is_some()))).collect(),
@@ -792,6 +804,9 @@ pub fn first_difference(a: &Observable, b: &Observable) -> Option<String> {
     }
     if a.requests != b.requests {
         return Some("requests-on-wire".into());
+    }
+    if a.pubrels != b.pubrels {
+        return Some("pubrels-on-wire".into());
     }
     if a.acks != b.acks {
         return Some("acknowledgements-on-wire".into());
@@ -1222,6 +1237,31 @@ pub fn c15(a: &Analysis, probe_from: Option<usize>) -> Vec<Violation> {
             x.property = "C15";
             x.class = format!("C15/slot-not-freed/{}", x.class.trim_start_matches("C10/"));
             out.push(x);
+        }
+    }
+    out
+}
+
+/// C03 — chunked execution `a` against the reference execution `r` (one read per packet).
+pub fn c03(a: &Analysis, r: &Analysis) -> Vec<Violation> {
+    let mut out = Vec::new();
+    let oa = observable(a);
+    let or = observable(r);
+    // the comparison is meaningful only when both executions consumed everything injected
+    let complete = a.fully_consumed() && r.fully_consumed() && a.ctx_dropped.is_none();
+    if !complete {
+        // no verdict on differences
+    } else if let Some(d) = first_difference(&oa, &or) {
+        out.push(v("C03", format!("C03/trace-differs/{d}"), format!("the chunked delivery and the packet-per-read delivery of the same bytes differ in {d}")));
+    }
+    for s in &a.stalls {
+        out.push(v("C03", "C03/stall-unread", format!("quiescent at {} with {}", s.0, s.1)));
+    }
+    for (c, conn) in a.conns.iter().enumerate() {
+        let closed_result = |o: &Option<(usize, Result<(), ErrDigest>)>| matches!(o, Some((_, Err(e))) if e.variant == "SocketClosed");
+        let connect_closed = matches!(&conn.connect_returned, Some((_, ConnectOutcome::Err(e))) if e.variant == "SocketClosed");
+        if (closed_result(&conn.run_returned) || connect_closed) && conn.read_end_seen.is_none() && conn.write_fault_seen.is_none() {
+            out.push(v("C03", "C03/early-eof", format!("connection {c}: SocketClosed reported although the transport never ended")));
         }
     }
     out
